@@ -113,7 +113,7 @@ def _wrong_value_like(node, rng_pick):
     import numpy as np
 
     # ... and "not-a-number" values of classes that are not numbers: they compare unequal to themselves like a float NaN
-    return ["12.5", " -7 ", "nan", b"300", [4.0], "1e3", "inf", decimal.Decimal("NaN"), complex("nan"), np.datetime64("NaT")][rng_pick % 10]  # (numpy counts timedelta64 as an integer type: not a wrong type)
+    return ["12.5", " -7 ", "nan", b"300", [4.0], "1e3", "inf", decimal.Decimal("NaN"), complex("nan"), np.datetime64("NaT"), np.bool_(True), np.bool_(False)][rng_pick % 12]  # (numpy counts timedelta64 as an integer type: not a wrong type)
 
 
 def _fault_quantity(node):
